@@ -229,3 +229,95 @@ Proof.
   intros [p x] [q y] Ha Hb. destruct s; [|contradiction]. destruct Ha as [Heq|[]]. inversion Heq; subst.
   apply chosen_from_ge in Hb. unfold pos_lt. cbn [fst]. lia.
 Qed.
+
+(* ---------- the builder theorems on the domain where the model is the code: at most [add_tx_hash_cap]
+   transactions, so that wire's AddTxHash (whose error calcBlock discards) never refuses a hash; see
+   Merkle.v "the domain on which this file is the code".  These are what Props/C11.v states. ---------- *)
+Lemma cap_lt_2_31 x : x <= add_tx_hash_cap -> x < 2 ^ 31.
+Proof. unfold add_tx_hash_cap. change (2 ^ 31) with 2147483648. lia. Qed.
+
+Theorem build_is_spec_txnset_cap : forall node_hash header leaves,
+  0 < N.of_nat (length leaves) -> N.of_nat (length leaves) <= add_tx_hash_cap -> forall txnset,
+  let sel := map (fun h => tx_in_set h txnset) leaves in
+  exists H, is_height (N.of_nat (length leaves)) H /\
+    mb_new_with_txnset node_hash header leaves txnset =
+    Ok (spec_msg node_hash header leaves sel H, map fst (chosen leaves sel)).
+Proof. intros nh header leaves Hpos Hcap. exact (build_is_spec_txnset nh header leaves Hpos (cap_lt_2_31 _ Hcap)). Qed.
+
+Theorem build_is_spec_filter_cap : forall node_hash header leaves,
+  0 < N.of_nat (length leaves) -> N.of_nat (length leaves) <= add_tx_hash_cap -> forall mm : nat -> bool,
+  let sel := map mm (seq 0 (length leaves)) in
+  exists H, is_height (N.of_nat (length leaves)) H /\
+    mb_new_with_filter node_hash header leaves mm =
+    Ok (spec_msg node_hash header leaves sel H, map fst (chosen leaves sel)).
+Proof. intros nh header leaves Hpos Hcap. exact (build_is_spec_filter nh header leaves Hpos (cap_lt_2_31 _ Hcap)). Qed.
+
+Theorem build_is_spec_bloom_cap : forall node_hash header leaves,
+  0 < N.of_nat (length leaves) -> N.of_nat (length leaves) <= add_tx_hash_cap -> forall mm : nat -> bool,
+  let sel := map mm (seq 0 (length leaves)) in
+  exists H, is_height (N.of_nat (length leaves)) H /\
+    bl_new node_hash header leaves mm =
+    Ok (spec_msg node_hash header leaves sel H, map fst (chosen leaves sel)).
+Proof. intros nh header leaves Hpos Hcap. exact (build_is_spec_bloom nh header leaves Hpos (cap_lt_2_31 _ Hcap)). Qed.
+
+(* a well-shaped tree of height h has fewer than 2^(h+1) flag bits *)
+Lemma shape_flags_lt n : forall h pos t', shape n h pos t' -> N.of_nat (length (pmt_flags t')) < 2 * 2 ^ N.of_nat h.
+Proof.
+  induction h as [|h IH]; intros pos t' Hs.
+  - destruct t'; try contradiction. cbn. lia.
+  - rewrite pow2_S. pose proof (pow2_pos (N.of_nat h)).
+    destruct t' as [| |l|l r]; try contradiction; cbn [pmt_flags length].
+    + lia.
+    + destruct Hs as [_ Hs]. specialize (IH _ _ Hs). lia.
+    + destruct Hs as (_ & Hl & Hr). pose proof (IH _ _ Hl). pose proof (IH _ _ Hr).
+      rewrite app_length. lia.
+Qed.
+
+(* whatever extraction accepts with MaxTxnCount <= 2^30 is inside [msg_in_domain] *)
+Lemma accepted_in_domain node_hash maxtx m root ms :
+  maxtx <= 2 ^ 30 -> extract node_hash maxtx m = Ok (root, ms) -> msg_in_domain m.
+Proof.
+  intros Hm30 He.
+  assert (maxtx < 2 ^ 31) as Hm31 by (change (2 ^ 30) with 1073741824 in *; change (2 ^ 31) with 2147483648; lia).
+  destruct (extract_sound node_hash maxtx m _ _ Hm31 He) as ((_ & Hn) & Hh & H & t & pad & Hacc & _).
+  destruct Hacc as (Hheight & Hshape & Hbits & Hpad & _).
+  assert (H <= 30)%nat as H30 by (eapply is_height_le; [exact Hheight|change (N.of_nat 30) with 30; lia]).
+  pose proof (shape_flags_lt _ _ _ _ Hshape) as Hfl.
+  assert (2 ^ N.of_nat H <= 2 ^ 30) by (apply N.pow_le_mono_r; lia).
+  apply (f_equal (@length N)) in Hbits. rewrite bits_of_flags_length, app_length, map_length in Hbits.
+  change (2 ^ 30) with 1073741824 in *.
+  split; change (2 ^ 32) with 4294967296; lia.
+Qed.
+
+Theorem build_then_extract_txnset_cap : forall node_hash,
+  (forall a b c d, node_hash a b = node_hash c d -> a = c /\ b = d) ->
+  forall header leaves txnset maxtx,
+  leaves <> [] -> NoDup leaves ->
+  N.of_nat (length leaves) <= add_tx_hash_cap ->
+  N.of_nat (length leaves) <= maxtx -> maxtx <= 2 ^ 30 ->
+  let sel := map (fun h => tx_in_set h txnset) leaves in
+  exists m, mb_new_with_txnset node_hash header leaves txnset = Ok (m, map fst (chosen leaves sel)) /\
+            msg_in_domain m /\
+            extract node_hash maxtx m = Ok (merkle_root node_hash leaves, chosen leaves sel).
+Proof.
+  intros nh Hinj header leaves txnset maxtx Hne Hnd Hcap Hmax Hm30 sel.
+  destruct (build_then_extract_txnset nh Hinj header leaves txnset maxtx Hne Hnd Hmax Hm30) as (m & Hb & He).
+  exists m. split; [exact Hb|]. split; [|exact He]. exact (accepted_in_domain nh maxtx m _ _ Hm30 He).
+Qed.
+
+Theorem build_then_extract_filter_cap : forall node_hash,
+  (forall a b c d, node_hash a b = node_hash c d -> a = c /\ b = d) ->
+  forall header leaves (mm : nat -> bool) maxtx,
+  leaves <> [] -> NoDup leaves ->
+  N.of_nat (length leaves) <= add_tx_hash_cap ->
+  N.of_nat (length leaves) <= maxtx -> maxtx <= 2 ^ 30 ->
+  let sel := map mm (seq 0 (length leaves)) in
+  exists m, mb_new_with_filter node_hash header leaves mm = Ok (m, map fst (chosen leaves sel)) /\
+            bl_new node_hash header leaves mm = Ok (m, map fst (chosen leaves sel)) /\
+            msg_in_domain m /\
+            extract node_hash maxtx m = Ok (merkle_root node_hash leaves, chosen leaves sel).
+Proof.
+  intros nh Hinj header leaves mm maxtx Hne Hnd Hcap Hmax Hm30 sel.
+  destruct (build_then_extract_filter nh Hinj header leaves mm maxtx Hne Hnd Hmax Hm30) as (m & Hb & Hb2 & He).
+  exists m. split; [exact Hb|]. split; [exact Hb2|]. split; [|exact He]. exact (accepted_in_domain nh maxtx m _ _ Hm30 He).
+Qed.
